@@ -80,3 +80,49 @@ Print Assumptions C12_merge_styles.
 Print Assumptions C12_merge_order_independent.
 Print Assumptions C12_merge_union.
 Print Assumptions C12_merge_allocates_maps.
+
+(* ---- audit follow-up: "B itself is unchanged" (Proofs/OpsMergeExtra.v) ----
+   In the functional model [merge a b pr ps] is a new value and [b] is an argument, so "b is not modified" is not a
+   statement about the model.  What can be said, and is: the cues of the result that come from B are B's cues - the
+   same records (identity, times, content), none lost or duplicated, in B's own stable start order; the receiver
+   shares B's cue objects (same identity) rather than copying them; the definitions that come from B are B's values
+   (C12_merge_union above).  That the argument's slice and maps are left alone by the library is observed by the
+   harness (argument compared before/after the call). *)
+From Astisub Require Import Proofs.OpsMergeExtra.
+Theorem C12_merge_items_in : forall a b pr ps y, In y (items (merge a b pr ps)) <-> In y (items a) \/ In y (items b).
+Proof. exact merge_items_in. Qed.
+(* [p]: any test that recognises B's cues (holds for all of B, for none of A) *)
+Theorem C12_merge_items_from_b : forall (p : item -> bool) a b pr ps,
+  filter p (items a) = [] -> filter p (items b) = items b ->
+  filter p (items (merge a b pr ps)) = order (items b).
+Proof. exact merge_items_from_b. Qed.
+Theorem C12_merge_items_from_a : forall (p : item -> bool) a b pr ps,
+  filter p (items a) = items a -> filter p (items b) = [] ->
+  filter p (items (merge a b pr ps)) = order (items a).
+Proof. exact merge_items_from_a. Qed.
+(* with disjoint identities the test is membership of the identity tag *)
+Theorem C12_merge_keeps_b : forall a b pr ps,
+  (forall x, In x (items a) -> ~ In (uid x) (map uid (items b))) ->
+  filter (tagged (map uid (items b))) (items (merge a b pr ps)) = order (items b).
+Proof. exact merge_keeps_b. Qed.
+Theorem C12_merge_keeps_a : forall a b pr ps,
+  (forall x, In x (items b) -> ~ In (uid x) (map uid (items a))) ->
+  filter (tagged (map uid (items a))) (items (merge a b pr ps)) = order (items a).
+Proof. exact merge_keeps_a. Qed.
+(* selecting cues commutes with ordering (the reason) *)
+Theorem C12_filter_order : forall (p : item -> bool) l, filter p (order l) = order (filter p l).
+Proof. exact filter_order. Qed.
+Example C12_merge_keeps_b_example :
+  let m := merge ex_merge_a ex_merge_b [mkRegion 4 None false] [mkStyle 7 None false; mkStyle 8 (Some 7%N) false] in
+  filter (tagged [3; 4]%N) (items m) = order (items ex_merge_b) /\
+  map (fun x => (uid x, st x, en x, i_reg x, i_sty x)) (filter (tagged [3; 4]%N) (items m)) =
+    [(4%N, 1, 2, None, None); (3%N, 5, 7, Some 4%N, Some 7%N)] /\
+  filter (tagged [1; 2]%N) (items m) = items ex_merge_a.
+Proof. exact ex_merge_keeps_b. Qed.
+
+Print Assumptions C12_merge_items_in.
+Print Assumptions C12_merge_items_from_b.
+Print Assumptions C12_merge_items_from_a.
+Print Assumptions C12_merge_keeps_b.
+Print Assumptions C12_merge_keeps_a.
+Print Assumptions C12_filter_order.
